@@ -79,7 +79,7 @@ def generate(seed, tier="quick", mode=None, **kw):
         if plan["crash_at"] and plan["entry"] == "io":
             plan["entry"] = "files"
     else:
-        variants = r.sample(["perfile", "split", "listing", "between", "failing", "crash_rerun", "dump", "pre_undo"], r.randint(2, 3))
+        variants = r.sample(["perfile", "split", "listing", "between", "failing", "crash_rerun", "dump", "pre_undo", "sibling"], r.randint(2, 3))
         plan["variants"] = variants
         plan["perfile_order"] = r.sample(paths, len(paths))
         plan["perfile_entries"] = [r.choice(["cli", "files", "file"]) for _ in paths]
@@ -279,6 +279,22 @@ def _check_hist(plan):
             digest_items.append(W.public_hist(h))
             got = {p: X["final"]["files"].get(W.mirror("in", "out", p)) for p in paths}
             compare("an undo run over the same tree earlier in the same process", got, paths)
+        elif v == "sibling" and o["ip"]:
+            # library use: other FileAnonymizers are alive in the process and have already seen this very text - same salt
+            # and lists but another number of host bits, then the same options under another salt
+            text = b"".join(_disk(plan)["files"][p] for p in paths).decode("utf-8", "replace")
+            hb = 8 if o["hb"] is None else o["hb"]
+            pre = [{"kind": "lines", "opts": dict(o, hb=(0 if hb else 8), words=None), "text": text},
+                   {"kind": "lines", "opts": dict(o, hb=(hb + 5) % 33, words=None), "text": text[: len(text) // 2]},
+                   {"kind": "lines", "opts": dict(o, salt=(o["salt"] or "") + "x", words=None), "text": text}]
+            for it in pre:
+                it["opts"]["as"] = None
+            X = W.run_world({"disk": _disk(plan), "procs": [{"knobs": plan["knobs"][2], "faults": [], "pre": pre,
+                                                               "steps": [_step(plan, plan["entry"], "in", "out")]}]})
+            steps += X["procs"][0]["nsys"]
+            digest_items.append(W.public_hist(X["procs"][0]))
+            got = {p: X["final"]["files"].get(W.mirror("in", "out", p)) for p in paths}
+            compare("sibling anonymizers (other host-bit counts, another salt) alive in the same process", got, paths)
         elif v == "dump" and o["ip"]:
             dk = _disk(plan)
             if plan["seed"] % 2:
